@@ -267,19 +267,30 @@ func c10R1(c *Check, sr *storeRoles) {
 		c.Obl(pairs[k], "C10.R1", "predicate/"+k, P.Pos(exp.Pos()), "comparison "+k+" present (timestamp before now − timeout ⇒ expired)",
 			"the expiry predicate lacks the comparison "+k)
 	}
-	// every `true` return requires its timeout > 0 and the comparison true; a zero timeout disables the limit:
-	// checked structurally: each Before call's truth contributes only under timeout > 0
+	// a zero timeout disables its limit: each timestamp comparison of the predicate is evaluated only where its
+	// own timeout is known to be positive (`timeout > 0 && …`, or an early `if timeout <= 0 { return false }`)
 	gt := 0
-	for _, b := range exp.Blocks {
-		for _, ins := range b.Instrs {
-			if bo, ok := ins.(*ssa.BinOp); ok && bo.Op == token.GTR {
-				if k, isC := constInt(bo.Y); isC && k == 0 {
-					n := fieldNameOfLoad(bo.X)
-					if n == "absoluteSessionTimeout" || n == "idleSessionTimeout" {
-						gt++
-					}
+	ffExp := FactsOf(exp)
+	for _, ci := range allCalls(exp) {
+		cc, ok := ci.(*ssa.Call)
+		if !ok || !isCallToAny(cc, "time.Time.Before", "time.Time.After") {
+			continue
+		}
+		var tv ssa.Value
+		for _, side := range cc.Common().Args {
+			for d := range dataDeps(side) {
+				if n := fieldNameOfLoad(d); n == "absoluteSessionTimeout" || n == "idleSessionTimeout" {
+					tv = d
 				}
 			}
+		}
+		if tv == nil {
+			continue
+		}
+		if ffExp.At(cc).intFact(tv, func(op token.Token, k int64) bool {
+			return (op == token.GTR && k >= 0) || (op == token.GEQ && k >= 1) || (op == token.NEQ && k == 0)
+		}) {
+			gt++
 		}
 	}
 	c.Obl(gt >= 2, "C10.R1", "predicate/zero-disables", P.Pos(exp.Pos()), "each limit is applied only when its timeout is > 0",
